@@ -292,6 +292,7 @@ var childKeys = []vaxis.Key{
 	{Keycode: vaxis.KeyUp}, {Keycode: vaxis.KeyDown}, {Keycode: vaxis.KeyHome}, {Keycode: vaxis.KeyUp, Modifiers: vaxis.ModShift},
 	{Keycode: vaxis.KeyF01}, {Keycode: vaxis.KeyInsert}, {Keycode: 'a', Text: "a"}, {Keycode: vaxis.KeyUp, EventType: vaxis.EventRelease},
 	{Keycode: vaxis.KeyKeyPadEnter}, {Keycode: vaxis.KeyKeyPad5, Modifiers: vaxis.ModNumLock, Text: "5"},
+	{Keycode: vaxis.KeyKeyPad5}, {Keycode: vaxis.KeyKeyPadLeft}, {Keycode: vaxis.KeyKeyPadBegin},
 }
 
 var childMice = []vaxis.Mouse{
